@@ -9,6 +9,7 @@ import (
 	"go/types"
 	"math"
 	"math/big"
+	"regexp"
 	"runtime"
 	"strconv"
 	"strings"
@@ -459,6 +460,10 @@ func (e *Engine) installExternals() {
 	}
 	x["encoding/json.Valid"] = func(fr *frame, a []Value) Value { return e.jsonValid(a[0].([]Value)) }
 
+	// ---- os (files are not modelled)
+	x["os.Remove"] = func(fr *frame, a []Value) Value { return Iface{} }
+	x["os.RemoveAll"] = func(fr *frame, a []Value) Value { return Iface{} }
+
 	// ---- runtime
 	x["runtime.Gosched"] = func(fr *frame, a []Value) Value { e.yield(fr.g, "Gosched"); return nil }
 	x["runtime.GC"] = func(fr *frame, a []Value) Value { return nil }
@@ -590,6 +595,17 @@ func (e *Engine) installIntrinsics() {
 			return v
 		}
 		return a[1]
+	}
+	in["vUnsupported"] = func(fr *frame, a []Value) Value {
+		panic(engineErr("model: %s", valString(normStr(a[0]))))
+	}
+	in["vSQLKind"] = func(fr *frame, a []Value) Value {
+		q, ok := normStr(a[0]).(string)
+		if !ok {
+			panic(engineErr("vsql: symbolic SQL text"))
+		}
+		k, cmp, lim, guard := sqlKind(q)
+		return Tuple{int64(k), int64(cmp), lim, int64(guard)}
 	}
 	in["vRank"] = func(fr *frame, a []Value) Value {
 		return e.simplify(e.ts.mk(sortInt, "vrank", e.strTerm(a[0])), nil)
@@ -892,4 +908,60 @@ func (e *Engine) lookupMethodByName(t types.Type, name string) *ssa.Function {
 		}
 	}
 	return nil
+}
+
+// ---- recogniser for the SQL statements of stores/sqlite (used by the database/sql model)
+
+var (
+	reSelEvents = regexp.MustCompile(`^select position, type, data, timestamp from events where position (>=|>|<=|<|!=|=) \? order by position( asc)?( limit \?)?$`)
+	reUpsert    = regexp.MustCompile(`^insert into subscription_positions \(subscription_id, position, updated_at\) values \(\?, \?, current_timestamp\) on conflict ?\(subscription_id\) do update set position = excluded\.position, updated_at = current_timestamp( where excluded\.position (>=|>|<=|<|!=|=) subscription_positions\.position)?$`)
+)
+
+func cmpCode(op string) int {
+	switch op {
+	case ">":
+		return 0
+	case ">=":
+		return 1
+	case "<":
+		return 2
+	case "<=":
+		return 3
+	case "=":
+		return 4
+	case "!=":
+		return 5
+	}
+	return -1
+}
+
+// sqlKind: 1 insert event, 2 select events, 3 upsert offset, 4 select offset,
+// 5 pragma/DDL, 6 select schema version, 7 insert schema version, 0 unknown.
+func sqlKind(q string) (kind, cmp int, hasLimit bool, guard int) {
+	q = strings.ToLower(strings.Join(strings.Fields(q), " "))
+	q = strings.TrimSuffix(q, ";")
+	guard = -1
+	switch {
+	case strings.HasPrefix(q, "pragma "), strings.HasPrefix(q, "create table if not exists "), strings.HasPrefix(q, "create index if not exists "):
+		return 5, 0, false, -1
+	case q == "insert into schema_version (version) values (1)":
+		return 7, 0, false, -1
+	case q == "select coalesce(max(version), 0) from schema_version":
+		return 6, 0, false, -1
+	case q == "insert into events (type, data, timestamp) values (?, ?, ?)":
+		return 1, 0, false, -1
+	case q == "select position from subscription_positions where subscription_id = ?":
+		return 4, 0, false, -1
+	}
+	if m := reSelEvents.FindStringSubmatch(q); m != nil {
+		return 2, cmpCode(m[1]), m[3] != "", -1
+	}
+	if m := reUpsert.FindStringSubmatch(q); m != nil {
+		g := -1
+		if m[1] != "" {
+			g = cmpCode(m[2])
+		}
+		return 3, 0, false, g
+	}
+	return 0, 0, false, -1
 }
